@@ -33,7 +33,92 @@ def units(tier, seed):
                 for algo in ("gp", "hc", "rs"):
                     us.append({"kind": "search", "spec": spec, "rep": rep, "algo": algo, "depth_off": 2,
                                "max_dev": 1, "max_execs": 25 if tier == "quick" else 300})
+    for est in ("regressor", "classifier"):
+        us.append({"kind": "geml", "estimator": est})
     return us
+
+
+def run_geml(unit) -> UnitResult:
+    """The geml estimators build a grammar per fit from shared, module-level production lists: every history of two
+    or three fits (data sets with different columns) leaves those lists unchanged, and each fit's grammar has exactly
+    the shared productions plus its own data set's variable production."""
+    import itertools
+
+    import numpy as np
+
+    r = UnitResult()
+    from geneticengine.solutions.individual import Individual
+    from geneticengine.random.sources import NativeRandomSource
+    from geneticengine.representations.tree.initializations import ProgressivelyTerminalDecider
+    from geneticengine.representations.tree.treebased import TreeBasedRepresentation
+
+    if unit["estimator"] == "regressor":
+        import geml.regressors as M
+        import geml.grammars.symbolic_regression as SR
+
+        base = M.GeneticEngineRegressor
+        shared = lambda: [c.__name__ for c in SR.components]  # noqa
+    else:
+        import geml.classifiers as M
+
+        base = M.GeneticEngineClassifier
+        shared = lambda: []  # noqa -- the classifier grammar is made per data set
+
+    class OneShot(base):  # the search itself is other properties' business: return one created individual
+        def search(self):
+            rep = TreeBasedRepresentation(self.grammar, ProgressivelyTerminalDecider(self.random, self.grammar))
+            ind = Individual(rep.create_genotype(self.random), rep)
+            self.problem.evaluate(ind.get_phenotype())
+            return ind
+
+    datasets = {
+        "wide": (np.array([[1.0, 2.0, 3.0], [2.0, 1.0, 0.5], [0.0, 1.0, 4.0], [3.0, 3.0, 1.0]]), np.array([1.0, 0.0, 1.0, 0.0])),
+        "narrow": (np.array([[1.0], [2.0], [0.5], [3.0]]), np.array([0.0, 1.0, 0.0, 1.0])),
+    }
+    for plan in itertools.product(datasets, repeat=3):
+        shared0 = shared()
+        w = {"unit": unit, "plan": list(plan)}
+        prods_seen = []
+        try:
+            for k, name in enumerate(plan):
+                X, y = datasets[name]
+                kw = {"max_time": 1, "seed": k}
+                if unit["estimator"] == "regressor":
+                    kw["remove_time_overheads"] = False
+                try:
+                    est = OneShot(**kw)
+                except TypeError:
+                    est = OneShot(1, k)
+                est.fit(X, y if unit["estimator"] == "regressor" else y.astype(int))
+                r.executions += 1
+                names = sorted(c.__name__ for c in est.grammar.all_nodes if getattr(c, "__module__", "") != "builtins")
+                prods_seen.append((name, names))
+                if shared() != shared0:
+                    r.add_violation(Violation(PROP, f"geml.{unit['estimator']}.fit", "shared-production-list-changed", {"estimator": unit["estimator"]}, w,
+                                              f"fits {plan[: k + 1]}: the module-level production list went from {len(shared0)} to {len(shared())} entries: "
+                                              f"{[n for n in shared() if n not in shared0][:3]}"))
+                    raise StopIteration
+            # the grammar of a data set does not depend on which data sets were fitted before it
+            per = {}
+            for name, names in prods_seen:
+                if name in per and per[name] != names:
+                    r.add_violation(Violation(PROP, f"geml.{unit['estimator']}.fit", "grammar-depends-on-earlier-fits", {"estimator": unit["estimator"]}, w,
+                                              f"fits {plan}: data set {name!r} got productions {names} and earlier {per[name]}"))
+                    break
+                per[name] = names
+            r.count("geml_fit_histories")
+            r.nontrivial += 1
+        except StopIteration:
+            break
+        except Exception as e:  # noqa
+            from checks.common import exc_brief
+
+            r.add_violation(Violation(PROP, f"geml.{unit['estimator']}.fit", "raised", {"estimator": unit["estimator"], "exc": type(e).__name__}, w,
+                                      f"fits {plan}: {exc_brief(e)}"))
+            break
+    r.states = 8
+    r.samples.append({"geml": unit["estimator"]})
+    return r
 
 
 def run_search(unit) -> UnitResult:
@@ -132,13 +217,25 @@ def run_differential(unit) -> UnitResult:
         snap0 = grammar_snapshot(g)
         before, nf, trunc = reach()
         r.nontrivial += nf
+        # a failing operation on the grammar itself: a weight update that raises half-way (its dictionary lacks all but the
+        # first production) must leave nothing behind
+        try:
+            first_rule = next(iter(g.alternatives))
+            g.update_weights(0.5, {g.alternatives[first_rule][0]: 1.0})
+            update_failed = False
+        except Exception:  # noqa
+            update_failed = True
+            r.count("failed_weight_updates")
         # the exploration above IS the history (it includes every failing / backtracking path); explore again
-        after, _, trunc2 = reach()
+        if update_failed or not g.alternatives:
+            after, _, trunc2 = reach()
+        else:
+            after, trunc2 = before, False  # the update went through (one-production grammar): the grammar changed on purpose
         r.states = len(before)
         r.count("differential_runs")
         if trunc or trunc2:
             r.truncated = True
-        snap1 = grammar_snapshot(g)
+        snap1 = grammar_snapshot(g) if (update_failed or not g.alternatives) else snap0
         w = {"unit": P.clean_unit(unit)}
         if before != after:
             lost = [R.show(t) for t in list(before - after)[:2]]
@@ -157,6 +254,8 @@ def run_differential(unit) -> UnitResult:
 
 
 def run_unit(unit) -> UnitResult:
+    if unit["kind"] == "geml":
+        return run_geml(unit)
     if unit["kind"] == "differential":
         return run_differential(unit)
     if unit["kind"] == "search":
